@@ -452,6 +452,21 @@ func (s *ssigner) Sign(ctx context.Context, r *proto.SSHCertificateSigningReques
 		return []ssh.PublicKey{mk(lk("L3").signer.PublicKey())}, []string{"x"}, nil
 	case "plain":
 		return []ssh.PublicKey{lk("L3").signer.PublicKey()}, []string{"x"}, nil
+	case "mixed": // n certificates, a plain public key (the CA's own key line), m more certificates
+		n, _ := strconv.Atoi(f[1])
+		m, _ := strconv.Atoi(f[2])
+		var certs []ssh.PublicKey
+		if pub == nil {
+			pub = lk("L4").signer.PublicKey()
+		}
+		for i := 0; i < n; i++ {
+			certs = append(certs, mk(pub))
+		}
+		certs = append(certs, caKey.PublicKey())
+		for i := 0; i < m; i++ {
+			certs = append(certs, mk(pub))
+		}
+		return certs, []string{"x"}, nil
 	case "panic":
 		panic("signer panic")
 	}
